@@ -1,7 +1,7 @@
 """C13 - target transformations are undone exactly by their reciprocal."""
 from vf import loader
 from vf.core import Clause, Outcome, Violation, require
-from vf.estimators import CentroidClassifier, KwargsClassifier, KwargsRegressor
+from vf.estimators import BiasedClassifier, CentroidClassifier, KwargsClassifier, KwargsRegressor
 
 import numpy as np
 from hypothesis import strategies as st
@@ -365,11 +365,16 @@ def check_classifier(case):
     y = _label_array(case)
     n = len(y)
     X = np.array(case["X"], dtype=np.float64)[:n]
+    if case.get("tie"):
+        # two classes made of the very same points: their probabilities tie exactly everywhere, whichever way the labels are coded
+        zz = [i for i, zi in enumerate(case["z"][:n]) if zi in (0, 1)]
+        if zz:
+            X[zz] = X[zz[0]]
     Q = np.vstack([np.array(case["Q"], dtype=np.float64).reshape(-1, X.shape[1]), X[:4]])
     lk = case["learner"]
     learner = {"centroid": CentroidClassifier(), "gnb": GaussianNB(), "logreg": LogisticRegression(max_iter=5000, C=1.0, tol=1e-10),
-               "kwargs-centroid": KwargsClassifier()}[lk]
-    tol = {"centroid": 1e-9, "gnb": 1e-6, "logreg": 1e-3, "kwargs-centroid": 1e-9}[lk]
+               "kwargs-centroid": KwargsClassifier(), "biased": BiasedClassifier()}[lk]
+    tol = {"centroid": 1e-9, "gnb": 1e-6, "logreg": 1e-3, "kwargs-centroid": 1e-9, "biased": 1e-9}[lk]
     sw = None if not case.get("weights") else np.array(case["weights"], dtype=np.float64)[:n]
     kw = {} if sw is None else dict(sample_weight=sw)
     facts = dict(learner=lk, label_kind=case["label_kind"], transformer=case["transformer"])
@@ -386,6 +391,12 @@ def check_classifier(case):
     pred = np.asarray(m.predict(Q))
     ppred = np.asarray(plain.predict(Q))
     require(set(pred.tolist()) <= set(labels), "predict:not-original-labels", "%r" % sorted(set(pred.tolist())), facts)
+    # predict is the inner classifier's own predict, mapped back to the original labels (ties and classifiers whose predict is not the
+    # argmax of predict_proba included)
+    inner_codes = np.asarray(m.classifier_.predict(Q))
+    back = np.asarray(m.transformer_.get_fct_inv().transform(None, inner_codes)[1])
+    require(back.shape == pred.shape and bool(np.all(back == pred)), "predict:not-inverse-of-inner-predict",
+            "predict gives %r, the inner classifier's predictions mapped back give %r" % (pred.tolist()[:8], back.tolist()[:8]), facts)
     P = np.asarray(m.predict_proba(Q), dtype=np.float64)
     PP = np.asarray(plain.predict_proba(Q), dtype=np.float64)
     pl_classes = list(plain.classes_.tolist())
@@ -407,10 +418,10 @@ def check_classifier(case):
     with np.errstate(all="ignore"):
         clear = (srt[:, -1] - srt[:, -2]) > 10 * tol if PP.shape[1] > 1 else np.ones(len(PP), dtype=bool)
     clear = clear & ~np.isnan(PP).any(axis=1)
-    require(bool(np.all(pred[clear] == ppred[clear])), "predict:differs-from-plain", "%r vs %r" % (pred[clear].tolist()[:6], ppred[clear].tolist()[:6]), facts)
+    require(lk == "biased" or bool(np.all(pred[clear] == ppred[clear])), "predict:differs-from-plain", "%r vs %r" % (pred[clear].tolist()[:6], ppred[clear].tolist()[:6]), facts)
     return Outcome([lk, case["label_kind"], case["transformer"], "identity" if identity else "non-identity",
                     "code-order==label-order" if sorted_identity else "code-order!=label-order", "classes=%d" % len(labels),
-                    "weights" if sw is not None else "no-weights"], not sorted_identity)
+                    "weights" if sw is not None else "no-weights", "tied-classes" if case.get("tie") else "no-tie"], not sorted_identity)
 
 
 @st.composite
@@ -423,9 +434,9 @@ def _clf_cases(draw, tier="quick"):
     centres = [[draw(st.integers(-20, 20)) / 2.0 for _ in range(d)] for _ in range(k)]
     X = [[centres[zi][j] + draw(st.integers(-8, 8)) / 8.0 for j in range(d)] for zi in base["z"]]
     base.update(X=X, Q=[[draw(st.integers(-24, 24)) / 2.0 for _ in range(d)] for _ in range(draw(st.integers(1, 8)))],
-                learner=draw(st.sampled_from(["centroid", "centroid", "gnb", "logreg", "kwargs-centroid"])),
+                learner=draw(st.sampled_from(["centroid", "centroid", "gnb", "logreg", "kwargs-centroid", "biased"])),
                 weights=draw(st.one_of(st.none(), st.lists(st.integers(1, 12).map(lambda v: v / 2.0), min_size=20, max_size=20))),
-                transformer=draw(st.sampled_from(["permute", "object"])))
+                transformer=draw(st.sampled_from(["permute", "object"])), tie=draw(st.integers(0, 3)) == 0)
     return base
 
 
